@@ -11,7 +11,7 @@ import os
 
 from .. import ref
 from ..crash import run_child
-from ..lab import CONTENTS, LFS, MD5, hi, make_odb, put_raw
+from ..lab import BULK, BULK_MD5, CONTENTS, LFS, MD5, hi, make_odb, put_raw
 from ..world import World, digest_obj, objects_only, store_snapshot, write_tree
 
 TREES = {
@@ -20,16 +20,22 @@ TREES = {
     "Tc": {"m": "v", "n/o": "crlf"},
 }
 SCENARIOS = ["stage-transfer", "index-save", "store-transfer", "upload", "verify-transfer",
-             "index-save-2fs", "index-save-verify"]
+             "index-save-2fs", "index-save-verify", "verify-transfer-dir", "index-save-2caches", "bulk-transfer"]
 MEM_ROOT = "memory://c15-second-fs"
 
 
 def listing(t):
+    if t == "Tbulk":
+        return {f"f{i:04d}": BULK_MD5[c] for i, c in enumerate(BULK)}
     return {r: MD5[c] for r, c in TREES[t].items()}
 
 
 def all_objects(t):
     lst = listing(t)
+    if t == "Tbulk":
+        out = {BULK_MD5[c]: BULK[c] for c in BULK}
+        out[ref.tree_oid(lst)] = ref.tree_bytes(lst)
+        return out
     out = {h: CONTENTS[c] for (r, c), h in zip(TREES[t].items(), lst.values())}
     out[ref.tree_oid(lst)] = ref.tree_bytes(lst)
     return out
@@ -44,6 +50,13 @@ def second_fs_dir(t):
 def setup(root, cfg):
     """Deterministic harness-side preparation (not crash-eligible)."""
     t = cfg["tree"]
+    if t == "Tbulk":
+        src = make_odb("local", os.path.join(root, "src"))
+        for oid, data in all_objects(t).items():
+            put_raw(src, oid, data)
+        make_odb("local", os.path.join(root, "odb"))
+        os.makedirs(os.path.join(root, "tmp"), exist_ok=True)
+        return
     local = {r: CONTENTS[c] for r, c in TREES[t].items()}
     if cfg["scenario"] == "index-save-2fs":
         # the files of the last sub-directory live on a second (in-memory) file system
@@ -59,6 +72,16 @@ def setup(root, cfg):
         for oid, data in all_objects(t).items():
             if cfg["scenario"] == "verify-transfer" and oid == first_file:
                 data = b"bit-rot:" + data   # a protected source object that no longer matches its name
+            put_raw(src, oid, data)
+    if cfg["scenario"] == "verify-transfer-dir":
+        # a generic remote whose directory object was cut short by an interrupted upload; the listing is
+        # known from a separate local cache
+        src = make_odb("base", os.path.join(root, "src"))
+        lc = make_odb("local", os.path.join(root, "listing-cache"))
+        for oid, data in all_objects(t).items():
+            if oid.endswith(".dir"):
+                put_raw(lc, oid, data)
+                data = data[: max(1, len(data) // 2)]
             put_raw(src, oid, data)
     os.makedirs(os.path.join(root, "tmp"), exist_ok=True)
 
@@ -84,7 +107,7 @@ def body(root, cfg, phase, arm):
         install_order_seam([cfg["first"]])
     idx = None
     try:
-        if sc in ("store-transfer", "verify-transfer"):
+        if sc in ("store-transfer", "verify-transfer", "bulk-transfer"):
             idx = ObjectDBIndex(os.path.join(root, "idx"), "dest")
         arm()
         if sc in ("stage-transfer", "upload"):
@@ -116,10 +139,24 @@ def body(root, cfg, phase, arm):
             index.storage_map.add_data(FileStorage(key=dk, fs=memfs, path=MEM_ROOT))
             index = imd5(index, state=state)
             isave(index, odb=odb)
-        elif sc in ("store-transfer", "verify-transfer"):
+        elif sc in ("store-transfer", "verify-transfer", "bulk-transfer"):
             src = make_odb("local", os.path.join(root, "src"))
             ids = {hi(o) for o in all_objects(t)}
             transfer(src, odb, ids, dest_index=idx, hardlink=False, verify=sc == "verify-transfer")
+        elif sc == "verify-transfer-dir":
+            src = make_odb("base", os.path.join(root, "src"))
+            lc = make_odb("local", os.path.join(root, "listing-cache"))
+            ids = {hi(o) for o in all_objects(t)}
+            transfer(src, odb, ids, hardlink=False, verify=True, cache_odb=lc)
+        elif sc == "index-save-2caches":
+            # entries below the deepest top-level directory are cached in a second store; save() gets no odb
+            from dvc_data.index import ObjectStorage
+
+            index = imd5(ibuild(ws, LFS), state=state)
+            odb2 = make_odb("local", os.path.join(root, "odb2"), state=state)
+            index.storage_map.add_cache(ObjectStorage((), odb))
+            index.storage_map.add_cache(ObjectStorage((second_fs_dir(t).split("/")[0],), odb2))
+            isave(index)
     finally:
         if cfg.get("first"):
             remove_order_seam()
@@ -136,38 +173,45 @@ def digest_ok(oid, data):
 
 
 def audit(root, cfg, when):
-    """Audit of the store (and state) of a world. Returns (violations, junk list)."""
+    """Audit of the store(s) (and state) of a world. Returns (violations, junk list, snapshot)."""
     from dvc_data.hashfile.state import State
 
     viol = []
     junk = []
-    odb_path = os.path.join(root, "odb")
-    snap = objects_only(store_snapshot(odb_path))
+    snap = {}
     state = State(root_dir=root, tmp_dir=os.path.join(root, "tmp"))
     try:
-        for oid, (data, mode) in snap.items():
-            p = os.path.join(odb_path, oid[:2], oid[2:])
-            ok = digest_ok(oid, data)
-            try:
-                _m, hinfo = state.get(p, LFS)
-            except Exception:  # noqa: BLE001
-                hinfo = None
-            if hinfo is not None and isinstance(data, bytes):
-                # (rows of directory objects are written with or without the '.dir' suffix)
-                actual = ref.md5(data)
-                if hinfo.value.split(".")[0] != actual:
-                    viol.append((f"state-vouches-for-mismatching-object/{when}",
-                                 f"{oid[:10]} state says {hinfo.value[:10]} bytes hash to {actual[:10]}"))
-            if not ok:
-                junk.append((oid, mode))
-                if mode == 0o444:
-                    viol.append((f"mismatching-object-is-write-protected/{when}",
-                                 f"{oid[:10]} holds {data[:20]!r} (len {len(data) if isinstance(data, bytes) else '?'})"))
-            if oid.endswith(".dir") and ok:
-                lst = ref.parse_listing(data) or {}
-                gone = [h for h in lst.values() if h not in snap]
-                if gone:
-                    viol.append((f"dir-object-present-without-its-files/{when}", f"{oid[:10]} lacks {[g[:8] for g in gone]}"))
+        for store in ("odb", "odb2"):
+            odb_path = os.path.join(root, store)
+            if not os.path.isdir(odb_path):
+                continue
+            ssnap = objects_only(store_snapshot(odb_path))
+            for oid, v in ssnap.items():
+                snap[oid if store == "odb" else f"{store}:{oid}"] = v
+            for oid, (data, mode) in ssnap.items():
+                p = os.path.join(odb_path, oid[:2], oid[2:])
+                ok = digest_ok(oid, data)
+                try:
+                    _m, hinfo = state.get(p, LFS)
+                except Exception:  # noqa: BLE001
+                    hinfo = None
+                if hinfo is not None and isinstance(data, bytes):
+                    # (rows of directory objects are written with or without the '.dir' suffix)
+                    actual = ref.md5(data)
+                    if hinfo.value.split(".")[0] != actual:
+                        viol.append((f"state-vouches-for-mismatching-object/{when}",
+                                     f"{oid[:10]} state says {hinfo.value[:10]} bytes hash to {actual[:10]}"))
+                if not ok:
+                    junk.append((oid, mode))
+                    if mode == 0o444:
+                        viol.append((f"mismatching-object-is-write-protected/{when}",
+                                     f"{oid[:10]} holds {data[:20]!r} (len {len(data) if isinstance(data, bytes) else '?'})"))
+                if oid.endswith(".dir") and ok:
+                    lst = ref.parse_listing(data) or {}
+                    gone = [h for h in lst.values() if h not in ssnap]
+                    if gone:
+                        viol.append((f"dir-object-present-without-its-files/{when}",
+                                     f"{oid[:10]} in {store} lacks {[g[:8] for g in gone][:6]}"))
         # workspace rows: a valid row must tell the truth
         for dirpath, _d, files in os.walk(os.path.join(root, "ws")):
             for fn in files:
@@ -202,6 +246,24 @@ def explore(cfg):
             viol.append(("uninterrupted-run-left-mismatching-object", str(junk0)))
         want = {k: (v[0], v[1]) for k, v in F.items()}
         points = [("event", n) for n in range(len(events))] + [("half", k) for k in range(ncopies)]
+        if cfg["scenario"] == "bulk-transfer":
+            # 1300 objects: kill points at the first 4 events, around every link probe of a final object path, at every event
+            # that touches the 1000th / 1001st object copied, and at the last 3 events; 3 half-written copies
+            objs_in_order = [e[1] for e in events if e[0] == "os.rename" or e[0] == "shutil.copyfile"]
+            keep = set(range(min(4, len(events)))) | set(range(max(0, len(events) - 3), len(events)))
+            for n, e in enumerate(events):
+                # the link probe(s): open(O_TRUNC) of a final object path, and the two events after it
+                if e[0] == "open" and e[2] and "O_TRUNC" in e[2] and not e[1].endswith(".tmp") \
+                        and e[1].split(os.sep)[0] == "odb":
+                    keep |= {n, n + 1, n + 2} & set(range(len(events)))
+            seen_objs = []
+            for n, e in enumerate(events):
+                tgt = e[2] if isinstance(e[2], str) and e[2].startswith("odb") else e[1]
+                if tgt not in seen_objs:
+                    seen_objs.append(tgt)
+                if len(seen_objs) in (1000, 1001, 1002):
+                    keep.add(n)
+            points = [("event", n) for n in sorted(keep)] + [("half", k) for k in sorted({0, min(1000, ncopies - 1), ncopies - 1})]
         for kind, n in points:
             root = w.mkdir(f"{kind}{n}")
             setup(root, cfg)
@@ -232,7 +294,7 @@ def explore(cfg):
                 continue
             v2, junk2, got = audit(root, cfg, "after-rerun")
             probe = prev is not None and prev[0] == "open" and prev[2] and "O_TRUNC" in prev[2] \
-                and not prev[1].endswith(".tmp") and prev[1].startswith("odb" + os.sep)
+                and not prev[1].endswith(".tmp") and prev[1].split(os.sep)[0] in ("odb", "odb2")
             cause = "object-path-truncated-by-link-probe" if probe else "other"
             for sig, d in v2:
                 viol.append((f"{sig}/{cfg['scenario']}/{cause}",
@@ -241,7 +303,10 @@ def explore(cfg):
             wantb = {k: v[0] for k, v in want.items()}
             if gotb != wantb:
                 bad = sorted(k for k in set(gotb) | set(wantb) if gotb.get(k) != wantb.get(k))
-                viol.append((f"rerun-diverges-from-uninterrupted-run/{cfg['scenario']}/{cause}",
+                okind = ""
+                if cfg["scenario"] == "bulk-transfer":
+                    okind = "/dir-object" if all(b.endswith(".dir") for b in bad) else "/file-object"
+                viol.append((f"rerun-diverges-from-uninterrupted-run/{cfg['scenario']}/{cause}{okind}",
                              f"objects {[(b[:10], 'len=%d mode=%s' % (len(gotb[b]), oct(got[b][1])) if b in gotb else 'absent') for b in bad]} "
                              f"killed before event {n} {nxt} (previous {prev}) cfg={cfg}", where))
             else:
@@ -281,13 +346,16 @@ def replay(case):
 
 def configs(tier):
     trees = ["Ta", "Tb"] + (["Tc"] if tier == "thorough" else [])
+    yield {"scenario": "bulk-transfer", "tree": "Tbulk", "initial": "empty", "first": None, "caps": False}
     for sc in SCENARIOS:
+        if sc == "bulk-transfer":
+            continue
         for t in trees:
-            if sc == "index-save-2fs" and second_fs_dir(t) is None:
+            if sc in ("index-save-2fs", "index-save-2caches") and second_fs_dir(t) is None:
                 continue
             for initial in ("empty", "half"):
                 firsts = [None]
-                if sc in ("stage-transfer", "store-transfer", "upload", "verify-transfer"):
+                if sc in ("stage-transfer", "store-transfer", "upload", "verify-transfer", "verify-transfer-dir"):
                     objs = sorted(all_objects(t))
                     firsts = objs if tier == "thorough" else [objs[0], objs[-1]]
                 for first in firsts:
